@@ -133,6 +133,25 @@ class DomainAdapter(Adapter):
                 bad('BackwardCoefficient', what='DST_III_coeffs = C3 * k * dk', err=rel(d.DST_III_coeffs, e3))
         if self.heavy and not out:
             out += self.battery(d, n, BDR, BDK)
+        if not out:
+            # a deep copy of the Domain (what every PRISM object works with) is the same Domain: same grids, same transforms
+            import copy
+            d2 = copy.deepcopy(d)
+            probe = np.cos(0.37 * np.arange(1, n + 1)) + 0.2
+            for attr in ('dr', 'dk', 'r', 'k', 'DST_II_coeffs', 'DST_III_coeffs', 'long_r'):
+                a1, a2 = np.asarray(getattr(d, attr)), np.asarray(getattr(d2, attr))
+                if a1.shape != a2.shape or not np.array_equal(a1, a2):
+                    bad('FreshEquivalent.deepcopy', attribute=attr)
+                    break
+            else:
+                if not (np.array_equal(d.to_fourier(probe.copy()), d2.to_fourier(probe.copy())) and
+                        np.array_equal(d.to_real(probe.copy()), d2.to_real(probe.copy()))):
+                    bad('FreshEquivalent.deepcopy', attribute='transforms', what='the deep copy of the Domain transforms differently')
+                # ... and stays one when the original is reconfigured afterwards (no shared mutable state)
+                keep = np.array(d2.to_fourier(probe.copy()))
+                d.dr = d.dr * 1.0
+                if not np.array_equal(keep, d2.to_fourier(probe.copy())):
+                    bad('FreshEquivalent.deepcopy', attribute='isolation', what='re-assigning dr on the original changed the deep copy')
         return out[:3]
 
     # ------------------------------------------------------------------------------
